@@ -10,7 +10,9 @@ RULE = ("cases = (schema, datum, disable_tuple_notation) x strict x raise_errors
         "mutation at a random position (wrong Python type, out-of-range int, bool for a number, wrong fixed size, bytearray for fixed, "
         "unknown symbol, non-string map key, missing required / defaulted field, an explicit None for a non-nullable value / for a field that has a default, wrong '-type' or tuple hint, tuple of arity 3 under a "
         "union, str for a sequence); corr:validate compares fastavro.validate in all four flag combinations with the model and with the "
-        "independent Python predicate of the documented mapping; corr:validate-many groups the data of one schema; "
+        "independent Python predicate of the documented mapping; corr:validate-many groups the data of one schema and runs validate_many under "
+        "every combination raise_errors x strict x disable_tuple_notation (with tuple notation disabled the data carry tuples at union "
+        "positions: sequences given as tuples and hint-shaped pairs), comparing with validate() per record and with the model; "
         "corr:validate-vs-writer: accepted => schemaless_writer and writer(validator=True) encode and the value reads back normalised; "
         "rejected => Writer.write / writer(validator=True) raise and the stream holds exactly the bytes before the rejected record; "
         "corr:strict-writer = schemaless_writer with strict=True / strict_allow_default=True vs the model under the same options on every "
@@ -446,13 +448,26 @@ def run(ctx):
         c.datum, c.suffix, c.wopts, c.ropts, c.use_raw, c.tag = d, b"", {}, {}, False, "witness#wrong-hint"
         wc.append(c)
     check_many(ctx, wc, [impl_text(c) for c in wc])
+    # validate_many must honour disable_tuple_notation like validate(): a tuple under a union is then a plain sequence
+    for raw, data in (([{"type": "array", "items": "int"}, "null"], [(1, 2, 3), [4]]),
+                      ([{"type": "array", "items": "string"}, "string"], [("string", "x"), "y"]),
+                      ({"type": "array", "items": ["null", {"type": "array", "items": "long"}]}, [[(1, 2)], [None, (3,)]])):
+        wd = []
+        for d in data:
+            c = CC.Case()
+            c.raw = raw
+            c.named = {} if not wd else wd[0].named
+            c.parsed = fastavro.parse_schema(json.loads(json.dumps(raw)), c.named) if not wd else wd[0].parsed
+            c.datum, c.suffix, c.wopts, c.ropts, c.use_raw, c.tag = d, b"", {"disable_tuple_notation": True}, {}, False, "witness#tuple-as-sequence"
+            wd.append(c)
+        check_many(ctx, wd, [impl_text(c) for c in wd])
     # ---- validate_many over the data of one schema
     i = 0
     while i < len(cases):
         j = i + 1
         while j < len(cases) and cases[j].parsed is cases[i].parsed and cases[j].wopts == cases[i].wopts and j - i < 4:
             j += 1
-        if j - i >= 2:
+        if j - i >= 2 or cases[i].wopts.get("disable_tuple_notation"):
             check_many(ctx, cases[i:j], results[i:j])
         i = j
     ctx.notes["predicate_true/false_evaluations"] = [stats["expected_true"], stats["expected_false"]]
